@@ -136,6 +136,11 @@ def deductive(rep, tier, jobs):
     rep.ob(vname, "discharged" if mode == "B" else "refuted" if (vfails or mode == "A") else "unsupported", "recording-stub", 0, "src/_gettsim/functions_loader.py _vectorize_func", "contract", detail)
     if vfails or mode == "A":
         rep.violation("vectorize-contract", f"_vectorize_func: {detail} -- the dtype of a column then depends on the row that happens to come first (another household's row can truncate a value)", {"obligation": vname, "failures": vfails, "mode": mode}, True)
+    # an aggregate reads exactly the members of the group / the rows pointing to the person (C11): the exhaustive
+    # run of the real kernels incl. isolation from NaN / inf / huge values in other groups
+    from props import C11 as c11
+
+    c11.bounded(rep, "quick")
     c12.recheck_kernel(rep, "bg_id_numpy", "KD", "derived ids of different families can collide or depend on other rows: the needs-unit contract (offset counted per family, below 100) does not hold")
     c12.recheck_kernel(rep, "wthh_id_numpy", "KD", "derived ids of different households can collide: the part-household contract does not hold")
     return lost
